@@ -336,6 +336,18 @@ def check(ctx, build=None):
         probes["variable-spec-with-two-names"] = ("var firstV, secondV uint64 = 1, 2\n\nfunc sumV() uint64 {\n\treturn firstV + secondV\n}\n")
         probes["variable-group-spec-with-two-names"] = ("var (\n\tloneV         uint64 = 5\n\tthirdV, fourthV uint64 = 3, 4\n)\n\nfunc sumG() uint64 {\n\treturn thirdV + fourthV + loneV\n}\n")
         probes["constant-spec-with-two-names"] = ("const firstK, secondK uint64 = 1, 2\n\nfunc sumK() uint64 {\n\treturn firstK + secondK\n}\n")
+        factsrc = "func fact(n uint64) uint64 {\n\tif n == 0 {\n\t\treturn 1\n\t}\n\treturn n * fact(n-1)\n}\n"
+        usesrc = "func useFact() uint64 {\n\treturn fact(3)\n}\n"
+        msrc = ("type RL struct {\n\tnext *RL\n\tv    uint64\n}\n\nfunc (l *RL) sum() uint64 {\n\tif l.next == nil {\n\t\treturn l.v\n\t}\n\treturn l.v + l.next.sum()\n}\n")
+        musesrc = "func useSum(l *RL) uint64 {\n\treturn l.sum() + 1\n}\n"
+        # a recursive function or method that another declaration calls too, declared before and after that caller: the self-call goes
+        # through the binder, the other call through the global — whichever is translated first
+        probes["recursive-and-called-elsewhere:caller-first"] = usesrc + "\n" + factsrc
+        probes["recursive-and-called-elsewhere:caller-last"] = factsrc + "\n" + usesrc
+        probes["recursive-method-and-called-elsewhere:caller-first"] = musesrc + "\n" + msrc
+        probes["recursive-method-and-called-elsewhere:caller-last"] = msrc + "\n" + musesrc
+        must_mention = {"recursive-and-called-elsewhere:caller-first": [("useFact", "fact")], "recursive-and-called-elsewhere:caller-last": [("useFact", "fact")],
+                        "recursive-method-and-called-elsewhere:caller-first": [("useSum", "RL__sum")], "recursive-method-and-called-elsewhere:caller-last": [("useSum", "RL__sum")]}
         for pid, psrc in sorted(probes.items()):
             root = os.path.join(scratch, "probe")
             gomod.write_module(root, {"p": {"p.go": "package p\n\n" + psrc}})
@@ -379,6 +391,10 @@ def check(ctx, build=None):
                          {"proto": "c04-probe", "probe": pid, "source": "package p\n\n" + psrc, "emitted": k4.emitted_def(text, n)}, "only definitions above", {"definition": n, "mentions": late, "order": order})
                 # a method is emitted under the name Type__method: a name of that shape which no definition of the file carries
                 # is a method that was declared in Go and is not there under the name its uses expect
+                for dn, gn in must_mention.get(pid, []):
+                    if n == dn and gn not in ms:
+                        viol("C04: a call of a package-level function from another declaration is not printed as a mention of that function's definition",
+                             {"proto": "c04-probe", "probe": pid, "source": "package p\n\n" + psrc, "emitted": k4.emitted_def(text, n)}, "%s mentions the global %s" % (dn, gn), {"mentions": ms})
                 ghost = [u for u in ms if re.fullmatch(r"\w*__\w+", u) and u not in pos and "__to__" not in u]
                 if ghost:
                     viol("C04: a definition mentions a method name that no definition of the file has",
